@@ -498,7 +498,8 @@ func (c c35Case) id() string { return c.Header + "|" + c.Prefix + "|" + c.Payloa
 
 func c35Cases(t testing.TB, thorough bool) []c35Case {
 	payloads := c35Payloads(t, thorough)
-	behaviours := []string{"close", "half-close", "stall"}
+	// half-close first: its cases are deterministic, so the first recorded case of a violation class (the replay) is
+	behaviours := []string{"half-close", "stall", "close"}
 	var out []c35Case
 	add := func(header string, hdr int, pfx string, val uint64, noFrame bool, p c35Payload, beh string) {
 		var s []byte
@@ -997,15 +998,17 @@ func TestVerif_C35(t *testing.T) {
 		o := rs.obs
 		out := "served"
 		switch {
+		case c.Behaviour == "close":
+			// the harness closes without reading: whether the node still gets to act (or to crash)
+			// before its writes fail is a race by nature, so close cases are judged like the others
+			// but their outcome is kept out of the evidence counters
+			out = "judged (the outcome depends on a race with the reset and is not recorded)"
 		case o.Crashed:
 			out = "CRASH " + o.CrashReason + " at " + o.CrashWhere
 		case !o.ProbeOK:
 			out = "NOT-SERVING"
 		case len(rs.vios) > 0 && strings.HasPrefix(rs.vios[0].key, "C35:memory:"):
 			out = "VIOLATION memory"
-		case c.Behaviour == "close":
-			// the harness closes without reading: whether the node still gets to act before it
-			// notices the reset is a race, so calls are judged but kept out of the outcome label
 		case len(rs.vios) > 0:
 			out = "VIOLATION " + strings.SplitN(rs.vios[0].key, ":", 3)[1]
 		case len(o.Calls) > 0:
@@ -1014,7 +1017,7 @@ func TestVerif_C35(t *testing.T) {
 		if len(o.Calls) > 0 && len(rs.vios) == 0 && c.Behaviour != "close" {
 			acted++
 		}
-		if o.Crashed || o.AllocDelta > c35RetireAlloc {
+		if (o.Crashed || o.AllocDelta > c35RetireAlloc) && c.Behaviour != "close" {
 			replaced++
 		}
 		if o.HWM > 0 {
@@ -1035,7 +1038,7 @@ func TestVerif_C35(t *testing.T) {
 	}
 	r.State(len(cases))
 	r.Set("outcomes", outcomes)
-	r.Set("cases_after_which_the_worker_process_had_to_be_replaced", replaced)
+	r.Set("cases_after_which_the_worker_process_had_to_be_replaced_(half-close_and_stall)", replaced)
 	r.Set("cases_in_which_an_authorized_command_acted_(half-close_and_stall)", acted)
 	r.Set("cases_in_which_a_high_water_mark_update_was_delivered_without_any_permission_check", hwmDelivered)
 	if budget > 0 {
